@@ -20,6 +20,7 @@ def configs(tier):
     for aux in ("none", "param", "param+obs"):
         out.append(dict(part="vloss_step", aux=aux, x64=True))
         out.append(dict(part="vloss_seq", aux=aux, ncalls=(4 if tier == "quick" else 5), x64=True))
+    out.append(dict(part="vloss_seq", aux="none", ncalls=4, ties=True, x64=True))       # repeated parameters on a one-point validation set: exact ties
     out.append(dict(part="solve", n_iter=(4 if tier == "quick" else 6), x64=True))
     return out
 
@@ -65,7 +66,7 @@ def run(cfg, R):
     u, params, loss = build_loss()
     key = jax.random.PRNGKey(17)
     k1, k2, k3 = jax.random.split(key, 3)
-    n, b = 3, 2
+    n, b = (1, 1) if cfg.get("ties") else (3, 2)
     vdata = DG.DataGeneratorODE(k1, n, 0.0, 1.0, b)
     pdata = DG.DataGeneratorParameter(k2, n + 1, b, param_ranges={"kappa": (1.0, 2.0)}) if "param" in aux else None
     odata = DG.DataGeneratorObservations(k3, b, jnp.arange(1, n + 3, dtype=jnp.float64).reshape(n + 2, 1) * 0.1, jnp.arange(1, n + 3, dtype=jnp.float64).reshape(n + 2, 1) * 0.3) if "obs" in aux else None
@@ -118,7 +119,10 @@ def run(cfg, R):
 
     # ---- sequence of calls with a parameter trajectory p_0..p_{m-1} (arbitrary symbolic parameters per call)
     m = cfg["ncalls"]
+    ties = cfg.get("ties", False)
     def f(val, plist):
+        if ties:            # the parameters of call k+1 repeat those of call k for odd k: the validation loss ties exactly with the running best
+            plist = [plist[0], plist[1], plist[1], plist[0]][:m]
         v = val; outs = []; refs = []
         vr = val
         for k in range(m):
@@ -132,7 +136,7 @@ def run(cfg, R):
         return outs, refs
     plist = [jax.tree_util.tree_map(lambda x: x * (1.0 + 0.1 * k), params) for k in range(m)]
     val0 = eqx.tree_at(lambda t: t.counter, val, jnp.array(0.0))
-    name = f"vloss_seq/{aux}/m{m}"
+    name = f"vloss_seq/{aux}/m{m}" + ("/ties" if ties else "")
     tr = R.trace(name, f, (val0, plist), key="vloss:raises", use_stubs=True, missing="example",
                  conc=lambda nm, l: nm.endswith("indices") or nm.endswith("counter"))
     if tr is None: return
@@ -155,7 +159,8 @@ def run(cfg, R):
     def assume(A, O):
         v, pl = A
         return [le(const(0, "Int"), v.patience[()])]
-    R.check(name, tr, goals, extra_assume_fn=assume, validate=False, key_fn=lambda p_, g: "vloss_seq:" + g.split(":", 1)[-1].strip()[:50])
+    R.check(name, tr, goals, extra_assume_fn=assume, validate=False, hint_spec=[(r"best_val_loss", ("fixed", 100000)), (r"patience", ("fixed", 1))],
+            key_fn=lambda p_, g: "vloss_seq:" + g.split(":", 1)[-1].strip()[:50])
 
 
 class Scripted(eqx.Module):
